@@ -59,6 +59,14 @@ class Contract:
         """Hook run on every path before the call (e.g. to set class-level state in the interpreter)."""
 
     def call(self, I, S, a):
+        if "calls" in a:
+            # several calls of repository functions in sequence (enumerations); result = list of results
+            out = []
+            for c in a["calls"]:
+                fn = I.load_function(c.get("file", self.file), c["func"])
+                out.append(I.call(fn, [sp.unwrap(x) for x in c.get("args", [])],
+                                  {k: sp.unwrap(v) for k, v in c.get("kwargs", {}).items()}))
+            return out
         fn = I.load_function(self.file, self.func)
         return I.call(fn, [sp.unwrap(x) for x in a.get("args", [])], {k: sp.unwrap(v) for k, v in a.get("kwargs", {}).items()})
 
@@ -674,12 +682,15 @@ def _native_replay_one(contract, I, o, model, repo):
                 "kwargs": {k: enc(v, memo) for k, v in a.get("kwargs", {}).items()},
                 "class_state": [[f, c, at, enc(v, memo)] for (f, c, at, v) in
                                 list(contract.class_state(S, a)) + _class_objects(I)],
-                "call": getattr(contract, "native_call", None),
             }
+            if "calls" in a:
+                req["calls"] = [{"file": c.get("file", contract.file), "func": c["func"],
+                                 "args": [enc(x, memo) for x in c.get("args", [])],
+                                 "kwargs": {k: enc(v, memo) for k, v in c.get("kwargs", {}).items()}} for c in a["calls"]]
             info["request"] = req
-            # comparisons closer than 1e-9 relative (+1e-12 of the largest input magnitude) are 'borderline':
-            # a float-rounding-sized discrepancy never confirms a violation
-            sp.TOL[0] = (Fraction(1, 10 ** 9), Fraction(1, 10 ** 12) * _maxabs(req))
+            # comparisons closer than 1e-9 relative are 'borderline': a float-rounding-sized discrepancy never
+            # confirms a violation (the counter-model itself is exact in R; the replay guards the encoding)
+            sp.TOL[0] = (Fraction(1, 10 ** 9), Fraction(0))
             p = subprocess.run([VENV_PY, os.path.join(HERE, "native_runner.py")], input=json.dumps(req),
                                capture_output=True, text=True, cwd=repo, timeout=600)
             if p.returncode != 0:
@@ -693,6 +704,10 @@ def _native_replay_one(contract, I, o, model, repo):
             res_dec = dec(resp["result"], dmemo, I) if resp["outcome"] == "return" else None
             post_args = [dec(x, dmemo, I) for x in resp["args"]]
             post_kwargs = {k: dec(v, dmemo, I) for k, v in resp["kwargs"].items()}
+            if "calls" in a:
+                for c, pc_ in zip(a["calls"], resp.get("calls_post", [])):
+                    for pre, post in zip(c.get("args", []), [dec(x, dmemo, I) for x in pc_]):
+                        sync(sp.unwrap(pre), post)
             for pre, post in zip(a.get("args", []), post_args):
                 sync(sp.unwrap(pre), post)
             for k, post in post_kwargs.items():
